@@ -482,7 +482,8 @@ class Isotropic(_Elastic):
         return c, s
 
     def Walpole_Decomposition(self) -> tuple[_types.FloatArray, _types.FloatArray]:
-        c1 = self.get_bulk()
+        # the 3D tensor is decomposed: 3D bulk modulus, whatever the 2D simplification
+        c1 = self.E / (3 * (1 - 2 * self.v))
         c2 = self.get_mu()
 
         Ivect = np.array([1, 1, 1, 0, 0, 0])
@@ -494,7 +495,7 @@ class Isotropic(_Elastic):
         ci = np.array([c1, c2])
         Ei = np.array([3 * E1, 2 * E2])
 
-        if not self.isHeterogeneous:
+        if not self.isHeterogeneous and self.dim == 3:
             C, S = self._Behavior(3)
             diff_C = C - np.sum([c * E for c, E in zip(ci, Ei)], 0)
             test_C = np.linalg.norm(diff_C, axis=(-2, -1)) / np.linalg.norm(
